@@ -38,7 +38,57 @@ def default_cfg(cls, N, rng, cplx, tone=False):
     raise KeyError(cls)
 
 
-def build(cls, x, cfg, NFFT=None, sampling=1.0, scale_by_freq=False):
+ROUTES = ['fresh', 'data_assigned', 'data_inplace', 'data_refilled', 'sampling_assigned', 'nfft_assigned', 'scale_assigned']
+
+
+def pick_route(rng, p_fresh=0.5):
+    """how the object under test comes to hold its settings: freshly constructed, or an object that already computed an estimate for
+    OTHER data / sampling / NFFT / scale_by_freq and was then given the wanted values through its attributes.  The relations the
+    properties state are about estimator OBJECTS, not only about constructor calls."""
+    return 'fresh' if rng.random() < p_fresh else ROUTES[1 + int(rng.integers(0, len(ROUTES) - 1))]
+
+
+def build(cls, x, cfg, NFFT=None, sampling=1.0, scale_by_freq=False, route='fresh', prev=None):
+    """an object of class cls holding data x and the given settings, reached by `route` (see pick_route)"""
+    return via(lambda d, n, s, b: _construct(cls, d, cfg, n, s, b), x, NFFT, sampling, scale_by_freq, route, prev)
+
+
+def via(make, x, NFFT, sampling, scale_by_freq, route='fresh', prev=None):
+    """make(data, NFFT, sampling, scale_by_freq) constructs an object; returns one holding (x, NFFT, sampling, scale_by_freq) reached by
+    `route`: constructed with them, or constructed with another value of ONE of them, evaluated, and then given the wanted value
+    through the attribute."""
+    x = np.asarray(x)
+    if route in (None, 'fresh') or (route == 'nfft_assigned' and NFFT is None):
+        return make(x, NFFT, sampling, scale_by_freq)
+    # the data the object held before: `prev` (e.g. the untransformed record: the caller studies x -> T(x) on ONE object) or, by
+    # default, other values of the same length and dtype kind
+    other = np.ascontiguousarray(x[::-1]) * 0.75 + (0.5 + (0.25j if np.iscomplexobj(x) else 0)) * max(float(np.max(np.abs(x))), 1e-300)
+    if prev is not None and np.shape(prev) == x.shape and np.iscomplexobj(prev) == np.iscomplexobj(x):
+        other = np.array(prev)
+    if route == 'data_assigned':
+        p = make(other, NFFT, sampling, scale_by_freq); _ = p.psd
+        p.data = x
+    elif route == 'data_inplace':
+        p = make(x / 2, NFFT, sampling, scale_by_freq); _ = p.psd
+        p.data *= 2                             # getter hands out the array, scaled in place, setter receives that very array
+    elif route == 'data_refilled':
+        p = make(other, NFFT, sampling, scale_by_freq); _ = p.psd
+        d = p.data; d[...] = x; p.data = d
+    elif route == 'sampling_assigned':
+        p = make(x, NFFT, sampling * 2, scale_by_freq); _ = p.psd
+        p.sampling = sampling
+    elif route == 'nfft_assigned':
+        p = make(x, NFFT + 3, sampling, scale_by_freq); _ = p.psd
+        p.NFFT = NFFT
+    elif route == 'scale_assigned':
+        p = make(x, NFFT, sampling, not scale_by_freq); _ = p.psd
+        p.scale_by_freq = scale_by_freq
+    else:
+        raise KeyError(route)
+    return p
+
+
+def _construct(cls, x, cfg, NFFT=None, sampling=1.0, scale_by_freq=False):
     import spectrum
     from spectrum import mtm
     C = getattr(spectrum, cls) if cls != 'MultiTapering' else mtm.MultiTapering
@@ -75,8 +125,13 @@ def model_params(p):
 
 def gen_data(rng, N, cplx, kind=None):
     """noise / tones in noise / integer data / AR-generated data"""
-    kind = kind or str(rng.choice(['noise', 'tone', 'int', 'ar']))
+    kind = kind or str(rng.choice(['noise', 'tone', 'int', 'ar'] + (['realc'] if cplx else [])))
     t = np.arange(N)
+    if kind == 'realc':
+        # real samples DECLARED complex (x.astype(complex), the output of an ifft, ...): the imaginary part is exactly zero, the data
+        # type is complex, so every two-sided statement applies
+        sub = str(rng.choice(['noise', 'tone', 'int']))
+        return gen_data(rng, N, False, sub)[0].astype(complex), 'realc-' + sub
 
     def noise(s=1.0):
         return s * (rng.standard_normal(N) + (1j * rng.standard_normal(N) if cplx else 0))
